@@ -769,6 +769,10 @@ func TestC06(t *testing.T) {
 		cnt.flush(r, "R")
 	})
 
+	if t.Failed() {
+		return
+	}
+
 	// ---- A. the step relation, every ordered pair
 	t.Run("A-step-relation", func(t *testing.T) {
 		var cnt c06Counters
@@ -845,6 +849,10 @@ func TestC06(t *testing.T) {
 		}
 	})
 
+	if t.Failed() {
+		return
+	}
+
 	// ---- B. ballotbox, all accepted sequences
 	t.Run("B-ballotbox", func(t *testing.T) {
 		var cnt c06Counters
@@ -891,6 +899,10 @@ func TestC06(t *testing.T) {
 			r.Sample(s)
 		}
 	})
+
+	if t.Failed() {
+		return
+	}
 
 	// ---- C. last-voteproofs store, all sequences
 	t.Run("C-last-voteproofs", func(t *testing.T) {
